@@ -91,6 +91,15 @@ static inline int script_last(const struct script *s)
 	return last;
 }
 
+/*
+ * A node pointer handed back by the library, validated before the harness dereferences it: garbage
+ * (a marker value, a freed or foreign address) is a finding about the library, not a crash of the harness.
+ */
+#define RET_NODE(ptr, what) ({ __typeof__(ptr) _rn = (ptr); usim_node_check(_rn, sizeof(*_rn), what); _rn; })
+
+/* possible-CPU counts reported to the library: powers of two and others (3, 5, 6 CPUs are ordinary machines) */
+static const int ncpu_choices[8] = { 1, 2, 3, 4, 5, 6, 8, 2 };
+
 static inline const struct flavor_ops *choose_flavor(unsigned allowed_mask)
 {
 	int ids[FLV_N], n = 0, i;
